@@ -1,19 +1,43 @@
 """C20 — reward vesting. Model: coq/theories/Model/Rvesting.v; harness: harness/cmd/c20."""
 import json
 import os
+import re
 from collections import Counter
 
 import vlib
 from vlib import coq_literal_bytes as cb, coq_Z, coq_bool, coq_list, coq_option
 
 HEADER = 'From Teleport Require Import Base.Bytes Base.Outcome Model.Rvesting Model.RvestingCheck.\nLocal Open Scope Z_scope.\n'
+WHEADER = ('From Teleport Require Import Base.Bytes Base.Outcome Model.Rvesting Model.RvestingCheck Model.RvestingIR '
+           'Model.RvestingBank Model.RvestingParams Model.RvestingWorld Model.RvestingCode Model.RvestingWorldCheck.\n'
+           'Local Open Scope Z_scope.\n')
 
 KINDS = {1: 'model and code disagree on whether a reward parameter value is accepted',
          2: 'model and code disagree on BeginBlocker returning vs panicking',
          3: 'model and code disagree on pool / fee-collector balances after BeginBlocker',
          11: 'BeginBlocker (or parameter validation) panicked for parameters the code had accepted',
          12: 'BeginBlocker changed a balance other than pool / fee collector, or the supply',
-         13: 'BeginBlocker moved an amount different from min(reward, remaining pool)'}
+         13: 'BeginBlocker moved an amount different from min(reward, remaining pool)',
+         14: 'after BeginBlock the sum of all balances differs from the stored supply',
+         20: 'params store of a fresh app differs from the DefaultParams regenerated from the source',
+         21: 'model and code disagree on the outcome class of an operation (done / rejected / panic)',
+         22: 'model and code disagree on the balances of the tracked accounts',
+         23: 'model and code disagree on the stored supply',
+         24: 'model and code disagree on the raw content of the params store under rvesting/',
+         25: 'model and code disagree on the block height',
+         26: 'the regenerated code contains a statement the model cannot interpret on this input',
+         31: 'model and code disagree on ValidateGenesis',
+         32: 'model and code disagree on InitGenesis returning vs panicking',
+         33: 'model and code disagree on balances / supply after InitGenesis',
+         34: 'model and code disagree on the params store after InitGenesis',
+         35: 'model and code disagree on ExportGenesis',
+         36: 'model and code disagree on ValidateGenesis of the export',
+         37: 'model and code disagree on importing the export',
+         41: 'InitGenesis changed the total supply (or sum of balances differs from it)',
+         42: 'InitGenesis did something other than moving InitReward from the funding account to the pool',
+         43: 'ExportGenesis does not carry the parameters that were imported (or carries From / InitReward)',
+         44: 'the exported genesis fails validation or its import panics',
+         45: 'importing the exported genesis moved coins or changed the parameters'}
 
 
 def pairs(ps):
@@ -61,6 +85,162 @@ def evaluate(workdir, results, tag='cases'):
         mm += o[0]
         ff += o[1]
     return mm, ff
+
+
+
+def rcoins(ps):
+    """list of (denom, amount-or-None) -> list rcoin"""
+    return coq_list(['(%s, %s)' % (cb(d), coq_option(None if a is None else coq_Z(a))) for d, a in ps])
+
+
+def pvalue_term(text):
+    """the amino-JSON decoder's view of a proposed value (bool / coin list / anything else)"""
+    try:
+        v = json.loads(text)
+    except ValueError:
+        return 'JMalformed'
+    if v is True or v is False:
+        return 'JBool %s' % coq_bool(v)
+    if isinstance(v, list):
+        out = []
+        for c in v:
+            if not isinstance(c, dict) or set(c) - {'denom', 'amount'} or not isinstance(c.get('denom'), str):
+                return 'JMalformed'
+            a = c.get('amount')
+            if a is not None:
+                if not isinstance(a, str):
+                    return 'JMalformed'
+                try:
+                    a = int(a)
+                except ValueError:
+                    return 'JMalformed'
+                if not re.fullmatch(r'-?[0-9]+', c['amount']):
+                    return 'JMalformed'
+            out.append((c['denom'], a))
+        return 'JCoins %s' % rcoins(out)
+    return 'JMalformed'
+
+
+def wop_term(op):
+    k = op['k']
+    if k == 'begin':
+        return 'WBegin'
+    if k == 'block':
+        return 'WBlock'
+    if k == 'param':
+        return 'WParam %s (%s)' % (cb(op['key']), pvalue_term(op.get('value', '')))
+    coins = pairs(op.get('coins') or [])
+    if k == 'send':
+        return 'WSend %d %d %s' % (op.get('i', 0), op.get('j', 0), coins)
+    if k == 'mint':
+        return 'WMint %d %s' % (op.get('i', 0), coins)
+    if k == 'burn':
+        return 'WBurn %d %s' % (op.get('i', 0), coins)
+    raise ValueError(k)
+
+
+ROLE = {'': 0, 'enable': 1, 'rewards': 2, 'other': 3}
+
+
+def wobs_term(o):
+    return ('{| wo_class := %d; wo_role := %d; wo_bal := %s; wo_sup := %s; wo_total := %s; wo_rest_same := %s; '
+            'wo_store := %s; wo_height := %s |}' % (
+                o['class'], ROLE[o.get('role', '')],
+                coq_list([coq_list([coq_Z(x) for x in row]) for row in o['bal']]),
+                coq_list([coq_Z(x) for x in o['supply']]), coq_list([coq_Z(x) for x in o['total']]),
+                coq_bool(o['rest_same']),
+                coq_list(['(%s, %s)' % (cb(k), cb(v)) for k, v in o['store']]), coq_Z(o['height'])))
+
+
+def wcase_term(r):
+    steps = ['(%s, %s)' % (wop_term(op), wobs_term(o)) for op, o in zip(r['spec']['ops'], r['obs'])]
+    return '{| wc_denoms := %s; wc_init := %s; wc_steps := %s |}' % (
+        coq_list([cb(d) for d in r['denoms']]), wobs_term(r['init']), coq_list(steps))
+
+
+def gcase_term(r):
+    sp = r['spec']
+    frm = {'': 'FromEmpty', 'bad': 'FromBad', 'acct': 'FromAcct 4'}[sp['from']]
+    g = '{| g_enable := %s; g_rewards := %s; g_from := %s; g_init := %s |}' % (
+        coq_bool(sp['enable']), rcoins([(c['denom'], c.get('amount')) for c in sp['rewards']]), frm, pairs(sp['init']))
+    exp = r.get('exported')
+    expt = None if exp is None else '(%s, %s)' % (coq_bool(exp['enable']), pairs(exp['rewards']))
+    a2 = r.get('after2')
+    return ('{| gc_denoms := %s; gc_gen := %s; gc_validate := %d; gc_before := %s; gc_init := %d; gc_after := %s; '
+            'gc_exported := %s; gc_exp_plain := %s; gc_revalidate := %d; gc_reinit := %d; gc_after2 := %s |}' % (
+                coq_list([cb(d) for d in r['denoms']]), g, r['validate'], wobs_term(r['before']), r['init'],
+                wobs_term(r['after']), coq_option(expt),
+                coq_bool(r.get('exported_from', '') == '' and r.get('exported_init', 0) == 0),
+                r.get('revalidate', 0), r.get('reinit', 0), coq_option(None if a2 is None else wobs_term(a2))))
+
+
+def evaluate2(workdir, results, mode, tag):
+    """world / genesis cases: returns (mismatches, monitor_failures) as lists of (case, step, kind), or (None, log)"""
+    size = 60 if mode == 'world' else 120
+    shards = [results[i:i + size] for i in range(0, len(results), size)]
+    typ, term, mq, fq = (('wcase', wcase_term, 'w_mismatches', 'w_monitor_failures') if mode == 'world'
+                         else ('gcase', gcase_term, 'g_mismatches', 'g_monitor_failures'))
+
+    def one(ix):
+        i, sh = ix
+        defs = 'Definition cases : list %s := %s.\n' % (typ, coq_list([term(r) for r in sh]))
+        res = vlib.coq_eval_lists(workdir, '%s_%d.v' % (tag, i), WHEADER, defs,
+                                  [('M', '%s cases' % mq), ('F', '%s cases' % fq)])
+        m = vlib.parse_nat_tuples(res.get('M'), 3)
+        f = vlib.parse_nat_tuples(res.get('F'), 3)
+        if res['_rc'] != 0 or m is None or f is None:
+            return ('error', res['_out'][-3000:])
+        off = i * size
+        return ([(h + off, s_, k) for h, s_, k in m], [(h + off, s_, k) for h, s_, k in f])
+
+    outs = vlib.parallel(one, list(enumerate(shards)))
+    mm, ff = [], []
+    for o in outs:
+        if o[0] == 'error':
+            return None, o[1]
+        mm += o[0]
+        ff += o[1]
+    return mm, ff
+
+
+def run_specs2(workdir, specs, mode, tag):
+    inp = os.path.join(workdir, tag + '_in.jsonl')
+    out = os.path.join(workdir, tag + '_out.jsonl')
+    vlib.write_jsonl(inp, specs)
+    rc, o = vlib.run_harness('c20', ['-mode', mode, '-in', inp, '-out', out])
+    if rc != 0:
+        return None
+    return vlib.read_jsonl(out)
+
+
+def shrink2(workdir, spec, mode, kind_class):
+    """world histories: drop operations one at a time while the failure persists (real code re-run each time)"""
+    if mode != 'world':
+        return spec
+
+    def fails(sp):
+        rs = run_specs2(workdir, [sp], mode, 'shrink2')
+        if not rs:
+            return False
+        mm, ff = evaluate2(workdir, rs, mode, 'shrink2_cases')
+        if mm is None:
+            return False
+        return len(ff if kind_class == 'monitor' else mm) > 0
+    best, budget, changed = spec, 30, True
+    while changed and budget > 0:
+        changed = False
+        for i in range(len(best['ops']) - 1, -1, -1):
+            if len(best['ops']) <= 1:
+                break
+            cand = dict(best)
+            cand['ops'] = best['ops'][:i] + best['ops'][i + 1:]
+            budget -= 1
+            if fails(cand):
+                best, changed = cand, True
+                break
+            if budget <= 0:
+                break
+    return best
 
 
 def run_specs(workdir, specs, tag):
@@ -120,10 +300,35 @@ def check(run):
         run.violation(dict(kind='harness-crashed', log=o[-3000:]), no_input=True)
         return run.finish()
     results = vlib.read_jsonl(outp)
+    if results and 'setup_panic' in results[0]:
+        # the real application panics while starting from its own default genesis (InitChain + first BeginBlock)
+        run.coverage.update(dict(evaluations=1, distinct_nontrivial=0, rule='application start from the default genesis',
+                                 distribution={'setup_panicked': 1}, samples=[{'genesis': 'default (app.Setup)'}]))
+        run.violation(dict(kind='monitor', mode='setup', code=11,
+                           what='the application panics while starting from its default genesis state (InitChain followed by the '
+                                'first BeginBlock): ' + KINDS[11],
+                           spec={'genesis': 'default genesis of the application (rvesting: DefaultGenesisState)'},
+                           observed=results[0]['setup_panic'][:600]), name='replay_setup.json')
+        return run.finish()
     mm, ff = evaluate(run.work, results)
     if mm is None:
         run.violation(dict(kind='coq-evaluation-failed', log=ff), no_input=True)
         return run.finish()
+
+    # world and genesis modes (directed corpus first, then generated cases)
+    extra = {}
+    for mode, nn in (('world', run.budget(150, 1500)), ('genesis', run.budget(150, 3000))):
+        outp2 = os.path.join(run.work, mode + '_out.jsonl')
+        rc, o = vlib.run_harness('c20', ['-mode', mode, '-seed', run.seed, '-n', nn, '-steps', run.budget(8, 14), '-out', outp2])
+        if rc != 0:
+            run.violation(dict(kind='harness-crashed', mode=mode, log=o[-3000:]), no_input=True)
+            return run.finish()
+        res2 = vlib.read_jsonl(outp2)
+        mm2, ff2 = evaluate2(run.work, res2, mode, mode + '_cases')
+        if mm2 is None:
+            run.violation(dict(kind='coq-evaluation-failed', mode=mode, log=ff2), no_input=True)
+            return run.finish()
+        extra[mode] = (res2, mm2, ff2)
 
     # coverage statistics (measured)
     steps = sum(len(r['obs']) for r in results)
@@ -142,18 +347,63 @@ def check(run):
             if any(post.get(d, 0) == 0 and pre.get(d, 0) > 0 for d in post):
                 dist['steps_pool_runs_dry'] += 1
             pre = post
+    wres, wmm, wff = extra['world']
+    gres, gmm, gff = extra['genesis']
+    cls = {0: 'done', 1: 'rejected', 2: 'panicked'}
+    for r in wres:
+        prev = r['init']
+        for op, o in zip(r['spec']['ops'], r['obs']):
+            k = op['k']
+            tag = 'world_%s_%s' % (k if k != 'param' else 'param_' + (o.get('role') or 'other'), cls[o['class']])
+            dist[tag] += 1
+            if k in ('begin', 'block') and o['class'] == 0:
+                moved = [int(a) - int(b) for a, b in zip(prev['bal'][0], o['bal'][0])]
+                if any(moved):
+                    dist['world_ticks_moving_coins'] += 1
+                    nontrivial.add(json.dumps(['w', prev['bal'][0], moved, k]))
+                if k == 'block' and any(int(x) for x in prev['bal'][1]) and not any(int(x) for x in o['bal'][1]):
+                    dist['world_blocks_sweeping_fee_collector'] += 1
+            if k in ('send', 'mint', 'burn') and o['class'] == 0 and (op.get('i') == 0 or op.get('j') == 0) and k == 'send':
+                dist['world_sends_touching_pool'] += 1
+            prev = o
+    for r in gres:
+        dist['genesis_validate_%s' % {0: 'ok', 1: 'error', 2: 'panic'}[r['validate']]] += 1
+        dist['genesis_init_%s' % {0: 'returned', 2: 'panicked'}[r['init']]] += 1
+        if r['init'] == 0:
+            moved = [int(a) - int(b) for a, b in zip(r['after']['bal'][0], r['before']['bal'][0])]
+            if any(moved):
+                dist['genesis_init_funding_pool'] += 1
+                nontrivial.add(json.dumps(['g', r['before']['bal'][0], moved]))
+            dist['genesis_round_trips'] += 1
+        elif r['validate'] == 0:
+            dist['genesis_validated_but_init_panicked(unfunded from: C15 known finding)'] += 1
+    wsteps = sum(len(r['obs']) for r in wres)
+    mm_all = len(mm) + len(wmm) + len(gmm)
+    ff_all = len(ff) + len(wff) + len(gff)
     run.coverage.update(dict(
-        evaluations=steps, histories=len(results), distinct_nontrivial=len(nontrivial),
-        rule='histories of parameter changes (valid / duplicate / invalid-denom / negative / empty reward lists, enable '
-             'toggles) and BeginBlocker calls on the real app; a step is non-trivial when coins moved; distinct = distinct '
-             '(pool before, amounts moved)',
-        distribution=dict(dist), model_mismatches=len(mm), monitor_failures=len(ff),
-        samples=[results[0]['spec']] if results else []))
+        evaluations=steps + wsteps + len(gres), histories=len(results), world_histories=len(wres), genesis_cases=len(gres),
+        distinct_nontrivial=len(nontrivial),
+        rule='(hist) parameter changes (valid / duplicate / invalid-denom / negative / empty reward lists, enable toggles) and '
+             'BeginBlocker calls on the real app; (world) the same interleaved with other modules\' SendCoins / MintCoins / '
+             'BurnCoins, ill-typed and unregistered parameter changes and whole TestChain blocks (distribution sweep), '
+             'observing six accounts, stored supply, sum of all balances and the raw params store; (genesis) ValidateGenesis / '
+             'InitGenesis / ExportGenesis / re-import.  A step is non-trivial when coins moved between pool and fee collector '
+             '(or into the pool at genesis); distinct = distinct (pool before, amounts moved)',
+        distribution=dict(dist), model_mismatches=mm_all, monitor_failures=ff_all,
+        samples=([results[0]['spec']] if results else []) + ([wres[6]['spec']] if len(wres) > 6 else []) +
+                ([gres[5]['spec']] if len(gres) > 5 else [])))
     run.coverage['trusted_base'] += [
-        'hand-written model Model/Rvesting.v tied to x/rvesting by this differential run (generator bounds what it sees)',
-        'cosmos-sdk bank/params (modelled: Coins.Add, GetBalance, SendCoins, Subspace.Update)']
-    run.assumptions += ['bank invariant: no balance is stored for an invalid denomination; pool balances are non-negative',
-                        'gov executes parameter changes through params.NewParamChangeProposalHandler']
+        'hand-written model Model/Rvesting.v (BeginBlocker) tied to x/rvesting by this differential run (generator bounds what it sees)',
+        'translator tools/gotocoq/rvesting (go/ast): validation guards, ParamSetPairs, keys, DefaultParams, genesis functions, '
+        'keeper wiring, app.go tables -> Gen/RvestingGen.v, interpreted by Model/RvestingParams.v / RvestingWorld.v; the '
+        'interpretation is cross-checked by the same differential run (outcome classes, balances, supply, raw params store)',
+        'cosmos-sdk bank/params/distribution (specified from the library source, validated by the run: Coins.Add, GetBalance, '
+        'SendCoins, MintCoins, BurnCoins, Subspace.Update/SetParamSet/GetParamSet, amino JSON of bool and Coins, '
+        'AllocateTokens sweeping the fee collector when height > 1)',
+        'python glue: JSON text of a proposed parameter value -> JBool / JCoins / JMalformed (tools/py/props/c20.py pvalue_term)']
+    run.assumptions += ['bank invariant: no balance is stored for an invalid denomination; balances are non-negative and sum to the stored supply (observed on every step)',
+                        'gov executes parameter changes through params.NewParamChangeProposalHandler',
+                        'parameter changes name a registered key (Subspace.Update panics otherwise: SDK behaviour, Refuted/C20_unregistered_key_refuted)']
 
     reported = set()
     for h, s, k in ff:  # property failed on the real code
@@ -163,20 +413,47 @@ def check(run):
         spec = dict(results[h]['spec'])
         spec['steps'] = spec['steps'][:s + 1]
         small = shrink(run.work, spec, 'monitor')
-        run.violation(dict(kind='monitor', code=k, what=KINDS.get(k), spec=small, failing_step=s,
+        run.violation(dict(kind='monitor', mode='hist', code=k, what=KINDS.get(k), spec=small, failing_step=s,
                            observed=results[h]['obs'][:s + 1][-1]), name='replay_h%d.json' % h)
         if len(run.violations) >= 3:
             break
+    for mode, key in (('world', 'ops'), ('genesis', None)):
+        res2, mm2, ff2 = extra[mode]
+        reported = set()
+        for h, s, k in ff2:
+            if h in reported or len(run.violations) >= 5:
+                continue
+            reported.add(h)
+            spec = dict(res2[h]['spec'])
+            if key:
+                spec[key] = spec[key][:s + 1]
+            small = shrink2(run.work, spec, mode, 'monitor')
+            obs = res2[h]['obs'][s] if key else {kk: res2[h].get(kk) for kk in ('validate', 'init', 'panic', 'exported', 'revalidate', 'reinit')}
+            run.violation(dict(kind='monitor', mode=mode, code=k, what=KINDS.get(k), spec=small, failing_step=s, observed=obs),
+                          name='replay_%s%d.json' % (mode[0], h))
     if not run.violations:
         for h, s, k in mm[:1]:  # model and code disagree, property monitor silent
             spec = dict(results[h]['spec'])
             spec['steps'] = spec['steps'][:s + 1]
             small = shrink(run.work, spec, 'model')
-            run.violation(dict(kind='correspondence', code=k, what=KINDS.get(k), spec=small,
+            run.violation(dict(kind='correspondence', mode='hist', code=k, what=KINDS.get(k), spec=small,
                                explanation='Model/Rvesting.v no longer describes x/rvesting; the theorems of Props/C20.v '
                                            'are about the model, so the property is no longer shown to hold',
                                broken='correspondence Model.Rvesting <-> x/rvesting'),
                           name='replay_corr_h%d.json' % h, no_input=True)
+        for mode, key in (('world', 'ops'), ('genesis', None)):
+            res2, mm2, ff2 = extra[mode]
+            for h, s, k in mm2[:1]:
+                spec = dict(res2[h]['spec'])
+                if key:
+                    spec[key] = spec[key][:s + 1]
+                small = shrink2(run.work, spec, mode, 'model')
+                run.violation(dict(kind='correspondence', mode=mode, code=k, what=KINDS.get(k), spec=small,
+                                   explanation='the regenerated model (Gen/RvestingGen.v interpreted by Model/RvestingParams.v, '
+                                               'Model/RvestingWorld.v) no longer describes x/rvesting / its wiring; the theorems of '
+                                               'Props/C20.v are about the model, so the property is no longer shown to hold',
+                                   broken='correspondence Model.RvestingCode <-> x/rvesting, app/app.go'),
+                              name='replay_corr_%s%d.json' % (mode[0], h), no_input=True)
         if not run.proof_ok():
             run.proof_violation()
     return run.finish()
@@ -190,11 +467,28 @@ def replay(path):
     if not ok or 'spec' not in rp:
         print('cannot replay: %s' % (out[-500:] if not ok else 'no spec in replay file (%s)' % rp.get('kind')))
         return 2
-    rs = run_specs(work, [rp['spec']], 'replay')
-    mm, ff = evaluate(work, rs, 'replay_cases')
-    print('observed:', json.dumps(rs[0]['obs'][-1]))
+    mode = rp.get('mode', 'hist')
+    if mode == 'setup':
+        outp = os.path.join(work, 'setup_out.jsonl')
+        rc, o = vlib.run_harness('c20', ['-seed', 1, '-n', 1, '-out', outp])
+        rs = vlib.read_jsonl(outp) if rc == 0 else []
+        if rc != 0 or (rs and 'setup_panic' in rs[0]):
+            print('observed: the application panics while starting from its default genesis')
+            print('VIOLATION property=C20 replay=%s' % path)
+            return 1
+        print('replay passes on the current tree')
+        return 0
+    if mode == 'hist':
+        rs = run_specs(work, [rp['spec']], 'replay')
+        mm, ff = evaluate(work, rs, 'replay_cases')
+        print('observed:', json.dumps(rs[0]['obs'][-1]))
+    else:
+        rs = run_specs2(work, [rp['spec']], mode, 'replay')
+        mm, ff = evaluate2(work, rs, mode, 'replay_cases')
+        last = rs[0]['obs'][-1] if mode == 'world' else {k: rs[0].get(k) for k in ('validate', 'init', 'panic', 'exported', 'revalidate', 'reinit')}
+        print('observed:', json.dumps(last))
     print('model mismatches:', mm, ' monitor failures:', ff)
-    if ff or mm:
+    if mm is None or ff or mm:
         print('VIOLATION property=C20 replay=%s' % path)
         return 1
     print('replay passes on the current tree')
